@@ -16,7 +16,8 @@ RULE = ('generated module shapes; evaluation = one observation line (post-instan
         'compared with V8; distinct = distinct (shape signature incl. segment/global counts, observation kind, instance)')
 
 TYPES = [I32, I64, F32, F64]
-NAMES = ['get', 'a_b', 'a__b', 'Xy', 'x.y', 'k-1', 'with space', 'q$', 'UPPER', 'z9', '_lead', 'trail_', 'a___b', 'p:q', 'm/n']
+NAMES = ['get', 'a_b', 'a__b', 'Xy', 'x.y', 'k-1', 'with space', 'q$', 'UPPER', 'z9', '_lead', 'trail_', 'a___b', 'p:q', 'm/n',
+         'm\u00e9moire', '\u8a08\u6570', '\u0080x', 'z\U0010ffff', 'na\u00efve_\u00e9__\u00fc', '\u07ff', 'X\ufffdX']
 
 
 def nonnan(rnd, t):
@@ -55,7 +56,7 @@ def build(rnd, k):
     if memk == 'defined':
         m.mems.append((rnd.randint(1, 3), rnd.choice([None, 3, 8]), False))
     if memk != 'none':
-        m.exports.append(('memory', 'memory', 0))
+        m.exports.append((rnd.choice(['memory', 'memory', 'm\u00e9m', 'mem-0', 'Xmem__x', '\u8a18\u61b6']), 'memory', 0))
     tsize = 0
     if tblk == 'defined':
         tsize = rnd.randint(8, 20)
